@@ -268,7 +268,7 @@ contract("bacpypes.appservice:SSM.in_window",
     post={"result": "(seqA - seqB) % 256 < self.actualWindowSize"},
     note="seqB may be a segment index beyond 255 (the sender's position): only its residue matters")
 
-WINDOW_BOUND = int(__import__("os").environ.get("SSM_WINDOW", "4" if __import__("os").environ.get("VERIF_TIER") == "thorough" else "2"))        # fill_window unrolls over the actual window size (property scope 1..8: thorough tier)
+WINDOW_BOUND = int(__import__("os").environ.get("SSM_WINDOW", "8" if __import__("os").environ.get("VERIF_TIER") == "thorough" else "2"))        # fill_window unrolls over the actual window size (property scope 1..8: thorough tier)
 
 def seg_ok(result, tr, indx, old_data):
     """segment number indx of the transaction's payload: that slice, flags, sequence number, window field, addressing"""
